@@ -18,3 +18,5 @@ for n in $names; do
 done
 # rebuild against the clean tree
 tools/build.sh >/dev/null 2>&1
+# the evidence files written while a seeded change was applied describe that tree, not the real one
+git -C "$PWD" checkout -- evidence 2>/dev/null
